@@ -29,7 +29,7 @@ func genC11(t *rapid.T) any {
 
 var c11Composite = map[string]bool{"join": true, "left-join": true, "parallel-join": true, "hash-join": true, "cte": true, "cte-twice": true, "derived": true, "sel-sub": true,
 	"sel-sub-root": true, "in-sub": true, "exists": true, "not-exists": true, "union": true, "union-all": true, "order-limit": true, "nested-from": true, "star-sub": true,
-	"join-on-fn": true, "derived-cte": true, "join-derived-cte": true, "in-sub-cte": true, "sel-sub-cte": true, "exists-cte": true, "cte-union": true, "cte-nested": true, "join-derived": true, "cte-join": true, "in-sub-root": true, "exists-outer": true, "having-agg": true, "group": true, "group-having": true, "whole-agg": true, "distinct": true}
+	"join-on-fn": true, "join-unaliased": true, "derived-cte": true, "join-derived-cte": true, "in-sub-cte": true, "sel-sub-cte": true, "exists-cte": true, "cte-union": true, "cte-nested": true, "join-derived": true, "cte-join": true, "in-sub-root": true, "exists-outer": true, "having-agg": true, "group": true, "group-having": true, "whole-agg": true, "distinct": true}
 
 func checkC11(c *C11Case) Result {
 	res := Result{}
@@ -98,7 +98,7 @@ func init() {
 		ID:    "C11",
 		Title: "Queries never modify the caller's input document",
 		Rule: "rapid draws a document (rows with scalar columns and a nested array of objects, second table) and a query from the 40 wide construct " +
-			"templates (filters, CASE, IN, BETWEEN, functions, GROUP BY/HAVING/aggregates, all join kinds, CTEs incl. un-Wrapped WITH, a CTE used " +
+			"templates (filters, CASE, IN, BETWEEN, functions, GROUP BY/HAVING/aggregates, all join kinds (both, one or no side aliased), CTEs incl. un-Wrapped WITH, a CTE used " +
 			"twice and WITH clauses inside derived tables / join sides / subqueries / EXISTS / other CTEs, derived tables, select-item / IN / [NOT] EXISTS subqueries on the row and on `<-`, UNION chains, ORDER BY/LIMIT, DISTINCT, nested " +
 			"FROM, star + subquery), with Wrapped on 1/4 of the cases; in 1/3 of the cases an injected function fails at a generated invocation " +
 			"index so that evaluation stops part-way; 1/4 of the cases execute the query twice on the same input. Oracle: cycle-safe, type-strict " +
